@@ -261,9 +261,10 @@ def bboxY : Region → Int × Int × Int × Int → Int × Int × Int × Int
     let xs := bboxX v.sub (xmin, xmax)
     bboxY r (xs.1, ymin, xs.2, ymax)
 
-/-- `sraRgnBBox` (for a non-NULL argument) -/
+/-- `sraRgnBBox` (for a non-NULL argument); seeds `xmin=ymin=INT_MAX`, `xmax=ymax=-xmin-1 = INT_MIN`
+(/repo 4069cf1; before that fix the maxima were seeded with `1-INT_MAX`) -/
 def Region.bbox (r : Region) : Region :=
-  let b := bboxY r (intMax, intMax, 1 - intMax, 1 - intMax)
+  let b := bboxY r (intMax, intMax, -intMax - 1, -intMax - 1)
   let xmin := b.1
   let ymin := b.2.1
   let xmax := b.2.2.1
